@@ -15,17 +15,30 @@ from harness.props import xpath_common as X
 MANIFEST = dict(
     category="proof",
     technique="Lean 4 theorems over a hand-written model of the xpath engine + differential correspondence with the implementation",
-    text="Lean: for a list of records reached by a concrete path, the fan-out step selects exactly the records that have the "
-         "field, in list order (C06_star: the result of `[*]/f` equals the list comprehension [r[f] for r in rs if f in r], a "
-         "miss when it is empty; C06_first_unwrap: first unwraps a single match), proved by induction over the record list for "
-         "every list length; the predicate forms are stated (C06_eq_stmt, C06_ne_stmt, C06_contains_stmt, C06_text_form_stmt, "
-         "C06_chained_stmt) and carried by the correspondence and the oracle evaluator; the three known defects have "
-         "counter-example theorems (numeric field C06-a, chained predicates C06-b, empty literal C06-c). The model of the "
-         "resolver is compared with the real code on all selecting forms at depth 0-3, with string and numeric fields, missing "
-         "fields, duplicates, occurring and non-occurring literals; the statement (list-comprehension oracle) is executed on the "
-         "implementation.",
-    note="string-valued k, non-empty literal without quote/escape characters, non-chained P are the scope of the evaluator's "
-         "unsuppressed verdicts; the rest is listed as known findings.",
+    text="Lean (model of n0dict._find with the fix patches C06-a and C06-c applied), for a list of dict records stored under a "
+         "plain key `name` of the root dict, every list length and every mix of present/absent fields: C06_star_partial "
+         "(`name[*]/f` and the shorthand `name/f` return, through get and item access, exactly [r[f] for r in rs if f in r] in "
+         "list order, the default / IndexError when that is empty, tree unchanged), C06_first_unwrap_partial + C06_firstOf_cases "
+         "(first returns the single match itself, the list for several, the default for none), C06_eq_partial, C06_ne_partial, "
+         "C06_contains_partial (`name[k=v]/f`, `name[k!=v]/f`, `name[k~v]/f`, operator written `=`/`==`/`~`/`~~`, literal bare or in "
+         "single or double quotes, the empty literal included: f of exactly the records that have k and whose k equals / differs "
+         "from / contains v; text fields compared as text, int fields as numbers), C06_text_form_equiv_partial "
+         "(`name/k[text() op v]/../f` returns what `name[k op v]/f` returns for get, item access and first), all instances of "
+         "C06_pred_partial. For a record list anywhere in the tree: C06_star_spelled (token level: for every token list that "
+         "spells the position of the list - plain keys, index steps in any spelling - _find on toks+['[*]',f] and toks+[f] finds "
+         "exactly that list comprehension) and C06_implicit_star_path_partial (`P/f` for the canonical path P of any position, "
+         "through get, item access and first). Proved by induction over the record list through the engine's fan-out loop, the condition branch, "
+         "the text() branch and the '..' step that re-resolves the found string from the root. Hypotheses: plain field names "
+         "(no path or operator characters, k not starting with `contains`, k not `text()`), plain literal (no blanks, quotes, "
+         "brackets, /, =, ~, *, ?, %; not true()/false()), no float value of k and a non-ASCII literal only against non-numeric k. "
+         "Stated, not proved (carried by the correspondence and the oracle evaluator): C06_star_stmt (the explicit `P[*]/f` "
+         "through get for an arbitrary path string P), C06_pred_stmt (the predicate forms for a record list at an arbitrary path), C06_chained_stmt (chained selections; refuted on the pinned tree by "
+         "the counter-example theorem C06_chained_cex, known finding C06-b). Positive examples for the two repaired findings "
+         "(C06_numeric_example, C06_empty_literal_example). The model of the resolver is compared with the real code on all "
+         "selecting forms at depth 0-3, with string, int, bool, float and None fields, missing fields, duplicates, occurring and "
+         "non-occurring literals, the empty literal; the statement (list-comprehension oracle, numeric fields compared as "
+         "numbers) is executed on the implementation.",
+    note="unsuppressed verdicts of the evaluator: every non-chained form; chained selections are the known finding C06-b.",
     design_ref="5/C06",
 )
 
@@ -41,7 +54,7 @@ def gen_records(rng, numeric=False, nested=False):
         r = {}
         for f in rng.sample(FIELDS, rng.choice([1, 2, 3, 4])):
             if numeric and rng.random() < 0.4:
-                r[f] = rng.choice(NVALS)
+                r[f] = rng.choice(NVALS) if rng.random() < 0.97 else rng.choice([1.0, 2.5])
             else:
                 r[f] = rng.choice(SVALS)
         if nested and rng.random() < 0.7:
@@ -76,13 +89,31 @@ def lit(rng, v, quoted):
     return v
 
 
+def field_eq(x, v):
+    """does the field value x equal the literal v (a text)?  A text field is compared as text, a numeric
+    field (int, bool as Python has it, float) as a number: the literal must denote that number."""
+    if isinstance(x, str):
+        return x == v
+    if isinstance(x, int):
+        try:
+            return x == int(v)
+        except ValueError:
+            return False
+    if isinstance(x, float):
+        try:
+            return x == float(v)
+        except ValueError:
+            return False
+    return False
+
+
 def oracle(recs, form, k, f, v):
     if form in ("star", "implicit"):
         return [r[f] for r in recs if f in r]
     if form in ("eq", "text"):
-        return [r[f] for r in recs if k in r and r[k] == v and f in r]
+        return [r[f] for r in recs if k in r and field_eq(r[k], v) and f in r]
     if form == "ne":
-        return [r[f] for r in recs if k in r and r[k] != v and f in r]
+        return [r[f] for r in recs if k in r and not field_eq(r[k], v) and f in r]
     if form == "contains":
         return [r[f] for r in recs if k in r and isinstance(r[k], str) and v in r[k] and f in r]
     raise ValueError(form)
@@ -109,11 +140,6 @@ def classify(c):
     recs = X.get_at(c["tree"], c["pos"])
     if c.get("chained"):
         return "C06-b"
-    if c["form"] in ("eq", "text", "ne", "contains"):
-        if any(not isinstance(r.get(c["k"], ""), str) for r in recs):
-            return "C06-a"
-        if c["v"] == "":
-            return "C06-c"
     return None
 
 
@@ -178,7 +204,41 @@ def check_chained(c):
 
 
 def shrink_failure(evaluator, case):
-    return case
+    """drop records, then fields of records, as long as the property still fails outside the known classes
+    (the path text only addresses the enclosing structure, so it stays valid)"""
+    check = check_chained if case.get("chained") else check_select
+
+    def fails(c):
+        try:
+            return check(c) is not None and classify(c) is None
+        except Exception:
+            return False
+
+    if not fails(case):
+        return case
+    cur = copy.deepcopy(case)
+    changed = True
+    while changed:
+        changed = False
+        recs = X.get_at(cur["tree"], cur["pos"])
+        for i in range(len(recs)):
+            cand = copy.deepcopy(cur)
+            del X.get_at(cand["tree"], cand["pos"])[i]
+            if fails(cand):
+                cur, changed = cand, True
+                break
+        if changed:
+            continue
+        for i, r in enumerate(recs):
+            for key in list(r):
+                cand = copy.deepcopy(cur)
+                del X.get_at(cand["tree"], cand["pos"])[i][key]
+                if fails(cand):
+                    cur, changed = cand, True
+                    break
+            if changed:
+                break
+    return cur
 
 
 def replay(rp):
@@ -266,4 +326,8 @@ def run(ctx):
     for c in cases:
         forms[c["form"]] = forms.get(c["form"], 0) + 1
     ctx.extra["forms"] = forms
-    ctx.extra["assumptions"] = ["record fields are plain names; literals are taken from / absent from the data"]
+    ctx.extra["assumptions"] = [
+        "record fields are plain names; literals are taken from / absent from the data",
+        "theorems: record list under a plain key of the root; a list at a deeper path and chained selections are covered by B and C only",
+        "the implementation under test carries the fix patches C06-a and C06-c",
+    ]
